@@ -270,3 +270,33 @@ func dedup(xs []string) []string {
 	}
 	return out
 }
+
+// CheckDefers: structural obligation — fn defers a call to callee in its entry block.
+func (e *Engine) CheckDefers(d *DefersSpec) *Query {
+	ob := &Oblig{Name: fmt.Sprintf("defers:%s:%s", d.Func, d.Callee), Class: "defers"}
+	q := &Query{Ob: ob, Func: "structural", Backend: "structural", Hash: ob.Name}
+	fn := e.fnByKey[d.Func]
+	if fn == nil || len(fn.Blocks) == 0 {
+		q.Status = "sat"
+		q.Model = "function " + d.Func + " not found"
+		return q
+	}
+	for _, in := range fn.Blocks[0].Instrs {
+		if df, ok := in.(*ssa.Defer); ok {
+			name := ""
+			if sc := df.Call.StaticCallee(); sc != nil {
+				name = sc.Name()
+			} else if df.Call.IsInvoke() {
+				name = df.Call.Method.Name()
+			}
+			if name == d.Callee {
+				q.Status = "unsat"
+				ob.Detail = "defer " + name + " found in the entry block of " + d.Func
+				return q
+			}
+		}
+	}
+	q.Status = "sat"
+	q.Model = d.Func + " no longer defers " + d.Callee + " in its entry block"
+	return q
+}
